@@ -301,7 +301,8 @@ func (p *FSM) Update(updates []sm.Entry) ([]sm.Entry, error) {
 			return nil, err
 		}
 
-		if len(res.Responses) > 0 {
+		// A transaction reports its revision even if the executed branch produced no response.
+		if _, txn := cmd.(commandTxn); txn || len(res.Responses) > 0 {
 			bts, err := res.MarshalVT()
 			if err != nil {
 				return nil, err
